@@ -53,6 +53,10 @@ func inWorld(rt *rapid.T, opt hlsim.Options, body func(rt *rapid.T, w *hlsim.Wor
 		}
 	}()
 	rapid.SyncTest(rt, func(rt *rapid.T) {
+		// the operator may have spelled the file root in any equivalent way (trailing slash, /./, //, a detour through ..)
+		if opt.RootSpelling == 0 {
+			opt.RootSpelling = rapid.SampledFrom([]int{0, 0, 0, 0, 1, 2, 3, 4}).Draw(rt, "rootSpelling")
+		}
 		w, err := hlsim.New(worldBase(), opt)
 		if err != nil {
 			rt.Fatalf("harness: building world: %v", err)
@@ -116,7 +120,7 @@ func writeFile(dir, name string, data []byte) error {
 func ownRoot(rt *rapid.T, w *hlsim.World, a hlsim.AccountSpec) string {
 	root := filepath.Join(w.Cfg, "ownroot-"+a.Login)
 	must(os.MkdirAll(root, 0o755))
-	a.FileRoot = root
+	a.FileRoot = hlsim.SpellRoot(root, w.RootSpelling())
 	must(os.WriteFile(filepath.Join(w.UsersDir, a.Login+".yaml"), hlsim.AccountYAML(a), 0o644))
 	if err := w.Restart(); err != nil {
 		rt.Fatalf("harness: restart with a per-account file root: %v", err)
